@@ -101,6 +101,7 @@ def run(ctx):
                        "of a workspace with colliding ids resolved by TLC (Prefix.tla) and by a fresh session; distinct = (config, op, outcome) / (prefix length, outcome, cache)")
     for c in configs(ctx):
         F.run_config(ctx, PID, c)
+    F.run_recorded(ctx, PID, "random-wide", 40 if ctx.quick else 2000, 30 if ctx.quick else 50, OPS + ["docset", "update_cache", "delete_cache", "copy", "setkey"], projects=("P",))
     prefix_check(ctx)
     ctx.cov["binding_selftest"] = F.selftest(ctx, PID)
 
